@@ -34,7 +34,7 @@ def document_witness(chk):
     ok = r.get('same_across_orders') and r.get('same_twice') and r.get('refs_resolve') and 'per_version' in r
     if ok:
         for pv in r['per_version']:
-            want = sorted([e['path'], e['method'], e['id']] for e in eps if e.get('visible', True) and inr(e['versions'], pv['version']))
+            want = sorted([[e['path'], e['method'], e['id']] for e in eps if e.get('visible', True) and inr(e['versions'], pv['version'])] + [['/zz-doc', 'GET', 'doc_endpoint']])
             if sorted(pv['operations']) != want: ok = False
     if not ok:
         chk.counterexample(f'OpenAPI document witness: native {r}', case, True, role='document')
